@@ -101,3 +101,59 @@ def step (s : Sys) : Op → Sys
 def run (s : Sys) (ops : List Op) : Sys := ops.foldl step s
 
 end Lifecycle
+
+namespace Estab
+/-! The tail of `newSession` against the event loop (F23). The session thread runs its two steps in program order; the
+    event loop can only act on a connection that has been registered with it; once the connection broke it closes the
+    session and its posted clean-up drops the queue manager. Reading the queue manager's path after that is a nil
+    dereference (the process dies). -/
+
+inductive TStep where
+  | name        -- s.name = s.queueManager.path
+  | register    -- s.eventConn.setCallback(s): from here on the event loop sees the connection
+  deriving DecidableEq, Repr
+
+inductive Ev where
+  | t           -- the session thread runs its next step
+  | peerBreak   -- the connection breaks (peer closed it / sent an invalid event): the event loop closes the session
+  | cleanup     -- the posted clean-up runs: queueManager = nil
+  deriving DecidableEq, Repr
+
+inductive Pc where
+  | first | second | done
+  deriving DecidableEq, Repr
+
+structure St where
+  pc : Pc := .first
+  qm : Bool := true          -- queueManager != nil
+  registered : Bool := false
+  closing : Bool := false
+  panicked : Bool := false
+  deriving DecidableEq, Repr
+
+def Pc.next : Pc → Pc
+  | .first => .second
+  | _ => .done
+
+def instr (prog : TStep × TStep) : Pc → Option TStep
+  | .first => some prog.1
+  | .second => some prog.2
+  | .done => none
+
+def step (prog : TStep × TStep) (s : St) : Ev → St
+  | .t =>
+    match instr prog s.pc with
+    | none => s
+    | some .name => if s.qm then { s with pc := s.pc.next } else { s with pc := s.pc.next, panicked := true }
+    | some .register => { s with pc := s.pc.next, registered := true }
+  | .peerBreak => if s.registered then { s with closing := true } else s
+  | .cleanup => if s.closing then { s with qm := false } else s
+
+def run (prog : TStep × TStep) (l : List Ev) : St := l.foldl (step prog) {}
+
+/-- the order of the repaired code (checked against the source by the skeleton tie of `newSession`) -/
+def fixedProg : TStep × TStep := (.name, .register)
+/-- the order before the repair -/
+def oldProg : TStep × TStep := (.register, .name)
+
+end Estab
